@@ -11,6 +11,8 @@ recorded outputs only (independent of the L0 model `Model/Reasm.lean`).
   ordered messages in write order, and as a gap-free prefix as long as no ordered forward
   (`fwdO`/`fwdOM`) was issued after the first message. A fragment, a splice of two messages, a
   truncated or altered payload, a wrong PPI, a duplicate or a reordered delivery all fail it.
+  At a `drained` marker (all fragments of all non-abandoned messages pushed, application read
+  until `tryAgain`) every non-abandoned message must have been returned ("exactly the sequence").
   A sequence whose pushes refer to a message without a ground-truth line (a shrunk replay) is
   not judged by this predicate.
 -/
@@ -25,6 +27,7 @@ structure Msg where
   hash    : String
   ordPos  : Nat          -- position among the ordered messages (write order)
   wasRead : Bool := false
+  abandoned : Bool := false
   deriving Inhabited
 
 structure Ghost where
@@ -47,8 +50,21 @@ def Ghost.addMsg (g : Ghost) (id : Nat) (ordered : Bool) (key ppi len : Nat) (ha
 def Ghost.notePush (g : Ghost) (tag : Option Nat) : Ghost :=
   if !g.honest then g else
   match tag with
-  | some id => if g.msgs.any (fun m => m.id == id) then g else { g with untracked := true }
+  | some id =>
+    if (g.msgs[id]?.map (·.id)) == some id then g      -- ids are array positions in generated runs
+    else if g.msgs.any (fun m => m.id == id) then g else { g with untracked := true }
   | none => { g with untracked := true }
+
+def Ghost.noteAbandon (g : Ghost) (id : Nat) : Ghost :=
+  { g with msgs := g.msgs.map fun m => if m.id == id then { m with abandoned := true } else m }
+
+/-- the generator says: every fragment of every non-abandoned message has been pushed and the
+application has read until `tryAgain`. Then every such message must have been returned. -/
+def Ghost.observeDrained (g : Ghost) : Option String :=
+  if !g.honest || g.untracked then none else
+  match g.msgs.find? (fun m => !m.abandoned && !m.wasRead) with
+  | some m => some s!"C01/C02: message {m.id} (key {m.key}) was handed to the queue completely and never abandoned, but no read returned it"
+  | none => none
 
 def Ghost.noteOrderedForward (g : Ghost) : Ghost :=
   if g.msgs.size > 0 then { g with fwdSeen := true } else g
